@@ -537,6 +537,49 @@ def judge_lang(inp, obs, lr):
     return None
 
 
+# ---- rank 2: the hypothesis of the Lean theorems accepts_iff_reduced_rank2 / shortlex_rank2 -------------------
+def gen_r2(rng, n):
+    for m in list(range(2, 13)) + [0, -1, -2]:
+        yield {"m": m}
+
+
+def run_r2(inp):
+    m = inp["m"]
+    form = [[1.0, -math.cos(math.pi / m) if m > 0 else -1], [-math.cos(math.pi / m) if m > 0 else -1, 1.0]]
+    sr = CA.find_small_roots(form)
+    return {"v": [[float(x) for x in r.v] for r in sr], "nb": [[x.id if x else None for x in r.neighbors] for r in sr]}
+
+
+def judge_r2(inp, obs, lr):
+    """DihedralNb m nb ang: nb is the action of s0, s1 on the m positive roots indexed by their angle (in units of pi/m
+    from alpha_0), alpha_0 -> 0, alpha_1 -> m-1;  s0: a -> m-a (a != 0), s1: a -> m-2-a (a != m-1).  For m = inf: two roots,
+    no neighbours (the hypothesis of accepts_iff_reduced_rank2_inf)."""
+    if "exc" in obs:
+        return {"expected": "small roots", "observed": obs, "tags": {"exc": obs["exc"]}}
+    m, nb, v = inp["m"], obs["nb"], obs["v"]
+    tags = {"m": m}
+    if m <= 0:
+        if nb != [[None, None], [None, None]]:
+            return {"expected": "two small roots without neighbours", "observed": nb, "tags": tags}
+        return None
+    if len(nb) != m:
+        return {"expected": f"{m} small roots", "observed": len(nb), "tags": tags}
+    c, s_ = math.cos(math.pi - math.pi / m), math.sin(math.pi - math.pi / m)      # alpha_1 at angle (m-1) pi/m
+    ang = []
+    for x, y in v:
+        px, py = x + y * c, y * s_
+        ang.append(int(round(math.atan2(py, px) * m / math.pi)))
+    ok = ang[0] == 0 and ang[1] == m - 1 and sorted(ang) == list(range(m))
+    for p in range(m):
+        a = ang[p]
+        e0 = None if a == 0 else ang.index(m - a) if (m - a) in ang else "?"
+        e1 = None if a == m - 1 else ang.index(m - 2 - a) if (m - 2 - a) in ang else "?"
+        ok = ok and nb[p] == [e0, e1]
+    if not ok:
+        return {"expected": "DihedralNb m nb ang (reflection action on the roots by angle)", "observed": {"ang": ang, "nb": nb}, "tags": tags}
+    return None
+
+
 CLAUSES = [
     Clause("automaton_corr", "corr", gen_aut, run_aut, judge_aut, lean=lean_aut,
            site="coxeter.CoxeterGroup.automaton / coxeter_automaton.find_small_roots, generate_automaton",
@@ -546,6 +589,11 @@ CLAUSES = [
     Clause("even_corr", "corr", gen_even, run_even, judge_even, lean=lean_even,
            site="coxeter.CoxeterGroup.automaton(even_length=True) / fsa.automaton_multiple", budget={"quick": 80, "thorough": 800},
            what="even_automaton of the implementation's table vs Lean evenAutomaton (up to BFS renumbering)"),
+    Clause("rank2_hypothesis_oracle", "oracle", gen_r2, run_r2, judge_r2, site="coxeter_automaton.find_small_roots",
+           budget={"quick": 14, "thorough": 14},
+           what="the hypothesis DihedralNb of the Lean rank-2 theorems (central clause PROVED for rank 2) holds of the "
+                "implementation's small roots for m = 2..12 and infinity (0/-1/-2): a test of the one link that is not proved "
+                "for irrational cosines"),
     Clause("language_oracle", "oracle", gen_lang, run_lang, judge_lang, lean=lean_lang,
            site="coxeter.CoxeterGroup.automaton", budget={"quick": 400, "thorough": 650},
            what="BOUNDED TEST of the unproved clause: accepted words up to length L vs independent Tits braid-move solver and "
